@@ -17,7 +17,8 @@ EXPLANATION = (
     'protocol exception classes raised below WebSocket.feed are all absorbed by its two handlers, each of which '
     'yields exactly one ProtocolError event, sends at most one Close (none when critical) and ends in a forced '
     'disconnect; RSV1 acceptance has a single, negotiation-gated writer; every non-try-else Disconnected is '
-    'graceful=False. Shape premises only - header values are not enumerated.')
+    'graceful=False. Shape premises only - header values are not enumerated.'
+    ' Also decided: package-wide isolation (objects created once per class or per function definition - class-level attributes, parameter defaults - are only read), so that no buffer, validator, cache, lock or option table is shared between connections by accident.')
 NOT_DECIDED = 'exhaustive enumeration of header values as runtime values; UTF-8 validity (C05)'
 ASSUMPTIONS = ['generators deliver items in program order (messages before a violation were already yielded)']
 
